@@ -1,6 +1,7 @@
 package main
 
 import (
+	"strings"
 	"fmt"
 	"go/types"
 	"sort"
@@ -223,7 +224,16 @@ func (c *Check) whoMayCall(rule, target string, allowed map[string]string, minSi
 			continue
 		}
 		seen[obKey] = true
-		if why, ok := allowed[caller]; ok {
+		why, ok := allowed[caller]
+		if !ok {
+			// a method whose receiver changed between value and pointer is the same caller
+			for k, v := range allowed {
+				if strings.ReplaceAll(k, "(*", "(") == strings.ReplaceAll(caller, "(*", "(") {
+					why, ok = v, true
+				}
+			}
+		}
+		if ok {
 			c.Ok(rule, obKey, s.Pos(), "who-may-call", "allowed caller (%s)", why)
 		} else {
 			c.Bad(rule, obKey, s.Pos(), "who-may-call", nil, "%s is called from %s, which is not in the allowed set %v", target, caller, keysOf(allowed))
